@@ -7,6 +7,7 @@ require (
 	github.com/0chain/common v1.13.1-0.20240726100134-cbf5bf9beaac
 	github.com/anishathalye/porcupine v1.3.0
 	github.com/herumi/bls-go-binary v1.33.0
+	github.com/vmihailenco/msgpack/v5 v5.4.0
 	go.uber.org/zap v1.24.0
 	golang.org/x/crypto v0.21.0
 )
@@ -102,7 +103,6 @@ require (
 	github.com/subosito/gotenv v1.4.2 // indirect
 	github.com/tinylib/msgp v1.1.6 // indirect
 	github.com/valyala/gozstd v1.20.1 // indirect
-	github.com/vmihailenco/msgpack/v5 v5.4.0 // indirect
 	github.com/vmihailenco/tagparser/v2 v2.0.0 // indirect
 	go.mongodb.org/mongo-driver v1.11.3 // indirect
 	go.uber.org/atomic v1.11.0 // indirect
